@@ -1,0 +1,122 @@
+//go:build verif
+
+package throttle
+
+import (
+	"sort"
+	"time"
+)
+
+// Verification-only exports (build tag `verif`) for property C16. Nothing here is compiled
+// into normal builds; the functions only expose unexported state of the throttle plugin.
+
+// VerifSetNow installs nowFn on the plugin's limiters map (every limiter created afterwards
+// reads its clock from it) and on the limiters that already exist.
+func VerifSetNow(p *Plugin, fn func() time.Time) {
+	p.limitersMap.setNowFn(fn, true)
+}
+
+// VerifCleanup removes the pipeline's limiters map from the package-level registry.
+func VerifCleanup(pipelineName string) {
+	limitersMu.Lock()
+	delete(limiters, pipelineName)
+	limitersMu.Unlock()
+}
+
+// VerifCurGen returns the current generation of the limiters map (wall clock in µs of the
+// last maintenance run, or of the map's creation).
+func VerifCurGen(p *Plugin) int64 {
+	p.limitersMap.mu.RLock()
+	defer p.limitersMap.mu.RUnlock()
+	return p.limitersMap.curGen
+}
+
+// VerifLimitersExp returns the effective limiter expiration of the map in µs.
+func VerifLimitersExp(p *Plugin) int64 {
+	return p.limitersMap.limitersExp
+}
+
+// VerifKeys returns the sorted keys of the limiters map.
+func VerifKeys(p *Plugin) []string {
+	p.limitersMap.mu.RLock()
+	defer p.limitersMap.mu.RUnlock()
+	keys := make([]string, 0, len(p.limitersMap.lims))
+	for k := range p.limitersMap.lims {
+		keys = append(keys, k)
+	}
+	sort.Strings(keys)
+	return keys
+}
+
+// VerifShares is the per-value limits of one rule's limit distribution.
+type VerifShares struct {
+	Listed  []int64
+	Default int64
+}
+
+// VerifRuleShares returns the distribution limits of every rule of the plugin (the default
+// rule is the last one), as computed by parseLimitDistribution at Start.
+func VerifRuleShares(p *Plugin) []VerifShares {
+	out := make([]VerifShares, 0, len(p.rules))
+	for _, r := range p.rules {
+		s := VerifShares{Default: r.limit.distributions.defDistribution.limit}
+		for _, d := range r.limit.distributions.distributions {
+			s.Listed = append(s.Listed, d.limit)
+		}
+		out = append(out, s)
+	}
+	return out
+}
+
+// VerifParseShares runs parseLimitDistribution on a distribution given as ratios and values.
+func VerifParseShares(field string, ratios []float64, values [][]string, limit int64) (VerifShares, error) {
+	c := limitDistributionCfg{Field: field, Enabled: true}
+	for i := range ratios {
+		c.Ratios = append(c.Ratios, limitDistributionRatio{Ratio: ratios[i], Values: values[i]})
+	}
+	ld, err := parseLimitDistribution(c, limit)
+	if err != nil {
+		return VerifShares{}, err
+	}
+	s := VerifShares{Default: ld.defDistribution.limit}
+	for _, d := range ld.distributions {
+		s.Listed = append(s.Listed, d.limit)
+	}
+	return s, nil
+}
+
+// VerifLim is the bucket state of one in-memory limiter.
+type VerifLim struct {
+	Key   string
+	MinID int
+	MaxID int
+	Rows  [][]int64
+}
+
+// VerifDump returns the bucket state of every in-memory limiter of the plugin, sorted by key.
+func VerifDump(p *Plugin) []VerifLim {
+	p.limitersMap.mu.RLock()
+	defer p.limitersMap.mu.RUnlock()
+	out := make([]VerifLim, 0, len(p.limitersMap.lims))
+	for k, lg := range p.limitersMap.lims {
+		l, ok := lg.limiter.(*inMemoryLimiter)
+		if !ok {
+			continue
+		}
+		l.lock()
+		v := VerifLim{Key: k, MinID: l.buckets.getMinID()}
+		switch b := l.buckets.(type) {
+		case *simpleBuckets:
+			v.MaxID = b.maxID
+		case *distributedBuckets:
+			v.MaxID = b.maxID
+		}
+		for i := 0; i < l.buckets.getCount(); i++ {
+			v.Rows = append(v.Rows, l.buckets.getAll(i, nil))
+		}
+		l.unlock()
+		out = append(out, v)
+	}
+	sort.Slice(out, func(i, j int) bool { return out[i].Key < out[j].Key })
+	return out
+}
